@@ -29,6 +29,16 @@ def noop_identity_checks(w, rel):
             bad.append("transferred_to(own engine) is not self")
         if rel[0:] is not rel or rel[:] is not rel:
             bad.append("[0:] is not self")
+        # ... whatever preferred-engine options accompany the no-op call
+        for key, other in w.engines.items():
+            if other is rel.engine:
+                continue
+            for kw in (dict(transfer=True), dict(require_preferred_engine=True), dict(backtrack=False, transfer=True), dict()):
+                if rel.with_only_columns(set(rel.columns), preferred_engine=other, **kw) is not rel:
+                    bad.append(f"with_only_columns(all columns, preferred_engine={key}, {kw}) is not self")
+                if rel.sorted([], preferred_engine=other, **kw) is not rel:
+                    bad.append(f"sorted([], preferred_engine={key}, {kw}) is not self")
+            break
     except Exception as e:  # noqa: BLE001
         bad.append(f"no-op call raised {type(e).__name__}: {e}")
     return bad
